@@ -579,6 +579,13 @@ def _resolve_conservation(ck):
                     joined += 1
                 else:
                     other += 1
+            elif recv == V(sname) and name == "append" and args and args[0] in (G, Gl):
+                # the whole group appended as ONE element: the un-joined list now holds a list where rows are expected
+                ck.violation("C08.5", short(fn) + ":nested-group", where(fn, e.node),
+                             "a group of records is appended to the un-joined list as one element (append where extend is meant): the "
+                             "list now holds a list among its rows - the 'joined' mode, which writes that list, aborts on it, and the "
+                             "two records are reported nowhere", found=T.show(e.term)[:120], required=f"{sname}.extend(group)")
+                sep_all += 1
             elif recv in (V(sname), V(jname)):
                 other += 1
         single = None
